@@ -158,7 +158,7 @@ def quadruples(m, scratch, rng, rep, n):
 EVOLUTIONS = ["reversion", "remove", "rename", "recluster", "edit-body-autoversion", "zero-params", "fn-argument"]
 
 
-def evolution(m, scratch, rng, rep, cluster, kind, idx, read_before=False):
+def evolution(m, scratch, rng, rep, cluster, kind, idx, read_before=False, backend="fs"):
     from twosigma.memento.storage_filesystem import FilesystemStorageBackend
     from . import fnlib
     root = os.path.join(scratch, "emods")
@@ -192,13 +192,17 @@ def evolution(m, scratch, rng, rep, cluster, kind, idx, read_before=False):
                   "    builtins._vt((\"exec\", \"caller\", x, None))",
                   "    return (%s) * 2" % call, ""]
         return "\n".join(lines)
-    store = FilesystemStorageBackend(path=os.path.join(scratch, "estore%d" % idx))
-    other = FilesystemStorageBackend(path=os.path.join(scratch, "estore%d_other" % idx))
+    if backend == "mem":
+        from twosigma.memento.storage_memory import MemoryStorageBackend
+        store, other = MemoryStorageBackend(), MemoryStorageBackend()
+    else:
+        store = FilesystemStorageBackend(path=os.path.join(scratch, "estore%d" % idx))
+        other = FilesystemStorageBackend(path=os.path.join(scratch, "estore%d_other" % idx))
     env = fnlib.set_env(m, scratch, {(cluster or "unused"): (store, None), "elsewhere": (other, None)})
     if cluster is None:
         env.default_cluster.storage = store
     tr = fnlib.Trace()
-    meta = {"cluster": cluster, "evolution": kind}
+    meta = {"cluster": cluster, "evolution": kind, "backend": backend}
     try:
         mod = write_module(root, modname, src("1" if kind != "edit-body-autoversion" else None))
         before = mod.caller(3)
@@ -239,6 +243,13 @@ def evolution(m, scratch, rng, rep, cluster, kind, idx, read_before=False):
             ran = [e for e in tr.execs() if e[1] == "caller"]
             if r != before or ran:
                 rep.violation("C12:current-entry-not-served-after-evolution", "caller's own version is current but the call returned %r (stored %r), body ran %d times" % (r, before, len(ran)), meta)
+        if name == "list_memoized_functions" and kind in ("reversion", "zero-params", "remove", "rename", "fn-argument"):
+            # the callee's version "1" no longer exists in the code: a listing that still names it names an external reference
+            stale = [x.qualified_name for x in r if x.qualified_name.endswith(":callee#1") and not x.external]
+            if stale:
+                rep.violation("C12:vanished-version-not-external", "after the callee was %s, the listing reports %r as a local (non-external) function" % (kind, stale), meta)
+        if name == "memento" and backend == "mem":
+            continue        # the in-memory backend hands back the very objects that were stored: nothing is re-read
         if name == "list_mementos of every listed function":
             # (a listed name that resolves to a live function of ANOTHER cluster -- the re-clustered callee -- is looked up where
             # that function lives now; the property only asks that reading it does not raise)
@@ -278,6 +289,10 @@ def run(tier, seed):
         ne = 0
         for idx, (cluster, kind, rb) in enumerate(itertools.product([None, "named"], EVOLUTIONS, [False, True])):
             evolution(m, scratch, rng, rep, cluster, kind, idx, rb)
+            ne += 1
+        # the same evolutions over the in-memory backend (one process: the entries live as long as it does)
+        for idx2, (cluster, kind) in enumerate(itertools.product([None, "named"], EVOLUTIONS)):
+            evolution(m, scratch, rng, rep, cluster, kind, 1000 + idx2, False, backend="mem")
             ne += 1
         rep.samples = [{"regex_strings": strs[100:104]}, {"evolutions": EVOLUTIONS}]
         rep.coverage.update({
